@@ -41,6 +41,27 @@ pub fn gen_digest(u: &mut U) -> [u8; 32] {
             o[0] = 0x80;
             o
         }
+        8 => {
+            // digests whose hex text looks like another kind of number: only decimal digits, only 0/1,
+            // "0b"/"0o" + binary/octal-looking digits (a parser that tries number literals first misreads them)
+            let mut d = [0u8; 32];
+            let style = u.below(4);
+            for b in d.iter_mut() {
+                let (hi, lo) = match style {
+                    0 => (u.below(10) as u8, u.below(10) as u8),
+                    1 | 2 => (u.below(2) as u8, u.below(2) as u8),
+                    _ => (u.below(8) as u8, u.below(8) as u8),
+                };
+                *b = (hi << 4) | lo;
+            }
+            if style == 2 {
+                d[0] = 0x0b;
+            }
+            if style == 3 {
+                d[0] = 0x00; // "00..." leading zeros, octal-looking
+            }
+            d
+        }
         7 => {
             // uniform at or above n
             let mut d = [0xffu8; 32];
